@@ -304,7 +304,7 @@ def run_case(case):
             sig = 'C12/%s/%s' % (runner['name'], kind)
             viol.setdefault(sig, {'signature': sig, 'what': msg[:400], 'index': case['index'], 'k': case['k'], 'schedule': ctx.data.get('schedule')})
     # every number of workers: it reaches the code through Pool.map's chunking (tasks pickled together share objects)
-    for w in (1, 2):
+    for w in (1, 2, 3):
         def wpath(ctx, w=w):
             obl = Obl(ctx)
             outcome, snap, rec, fs = execute(mods, S, runner, pool.Schedule('identity', workers=w))
